@@ -47,7 +47,7 @@ CASES += [
 
 CASES += [
     m("set_resolution relabels before converting", "C19-E",
-      "            elif res_old > res_new:\n                self._convert_resolution(res_old, res_new)",
+      "            elif res_old > res_new:\n                # recalculate data towards lower resolution\n                self._convert_resolution(res_old, res_new)",
       "            elif res_old > res_new:\n                self.storage_resolution = resolution\n                self._convert_resolution(res_old, res_new)"),
     m("conversion loop labels the level before the one converted to", "C19-E",
       "                self.storage_resolution = _resolutions[end]", "                self.storage_resolution = _resolutions[start]"),
